@@ -682,8 +682,8 @@ fn clone_exhaustive(driver: &Driver, max_nodes: u64) -> Stream {
                 g.insert(*id, GNode { ty, k: l.clone(), a: None, b: None });
             }
             for rs in &rootseqs {
-                // 3-node graphs: one root sequence per graph is enough to keep the enumeration finite in time
-                if n >= 3 && (c + rs.len() + rs[0] as usize) % 7 != 0 { continue; }
+                // 3-node graphs: all single roots, and the two-root sequences that start at the first node
+                if n >= 3 && rs.len() == 2 && rs[0] != ids[0] { continue; }
                 cases.push(CloneCase { g: g.clone(), roots: rs.iter().map(|r| ('p', *r)).collect(), layout: PLAIN });
             }
         }
@@ -1158,6 +1158,14 @@ fn has_irregular_name(p: &Primitive) -> bool {
     }
 }
 
+/// `…/ColorSpace[3]`, possibly followed by `@<object>` markers of resolved references
+fn is_indexed_lookup_path(path: &str) -> bool {
+    match path.rfind("[3]") {
+        Some(p) => path[..p].contains("ColorSpace") && path[p + 3..].split('@').all(|seg| seg.chars().all(|c| c.is_ascii_alphanumeric())),
+        None => false,
+    }
+}
+
 /// a reference that does not lead to an object (as opposed to an object that cannot be parsed)
 fn is_missing(e: &PdfError) -> bool {
     matches!(crate::util::err_class(e), "F" | "N" | "U")
@@ -1264,6 +1272,16 @@ impl<'a, RO: Resolve, RN: Resolve> Cmp<'a, RO, RN> {
             (Primitive::Stream(sa), Primitive::Stream(sb)) => {
                 self.dicts(path, &sa.info, &sb.info, true);
                 self.stream_data(path, sa, sb);
+            }
+            // the lookup table of an Indexed colour space may be a string or a stream (same bytes, same meaning)
+            (Primitive::String(sa), Primitive::Stream(sb)) | (Primitive::Stream(sb), Primitive::String(sa)) if is_indexed_lookup_path(path) => {
+                let rn_side = matches!(b, Primitive::Stream(_));
+                let data = if rn_side { pdf::object::Stream::<()>::from_stream(sb.clone(), self.rn).and_then(|s| s.data(self.rn)) }
+                           else { pdf::object::Stream::<()>::from_stream(sb.clone(), self.ro).and_then(|s| s.data(self.ro)) };
+                match data {
+                    Ok(d) if d[..] == sa.as_bytes()[..] => {}
+                    _ => self.diff("value-differs", format!("{}: Indexed lookup table differs between string and stream form", path)),
+                }
             }
             (a, b) => {
                 let same = match (num_of(a), num_of(b)) {
@@ -1841,6 +1859,16 @@ fn rich_objects(rng: &mut Rng, g: &Graph) -> Rich {
         let raw: Vec<u8> = rows.concat();
         let head = "/Type /XObject /Subtype /Image /Width 2 /Height 2 /ColorSpace /DeviceRGB /BitsPerComponent 8";
         let extra = if rng.chance(1, 3) { " /Interpolate true" } else { "" };
+        if rng.chance(1, 5) {
+            // palette image: the lookup table as a short string, a long string or a stream object
+            let n = *rng.pick(&[4usize, 40]);
+            let pal = rng.bytes(3 * n);
+            let lookup = if rng.chance(1, 3) { let l = id(); r.objs.push((l, stream_body("", &pal), true)); format!("{} 0 R", l) } else { hex_string(&pal) };
+            let data: Vec<u8> = (0..4).map(|_| rng.below(n as u64) as u8).collect();
+            r.objs.push((im, stream_body(&format!("/Type /XObject /Subtype /Image /Width 2 /Height 2 /ColorSpace [/Indexed /DeviceRGB {} {}] /BitsPerComponent 8{}", n - 1, lookup, extra), &data), true));
+            r.images.push(im);
+            continue;
+        }
         let body = match rng.below(7) {
             0 => stream_body(&format!("{}{}", head, extra), &raw),
             1 => stream_body(&format!("{}{} /Filter /FlateDecode", head, extra), &zlib(&raw)),
